@@ -419,7 +419,8 @@ pub fn replay_layouts(layouts: &LayoutSet, protos: &[&str], seed: u64, reps: usi
             set_strclass("");
             if !b.fits {
                 // not a reply a server can send (e.g. 64 players in one GameSpy 3 packet)
-                *rep.extra.entry("skipped_oversize".into()).or_insert(json!(0)) = json!(rep.extra["skipped_oversize"].as_u64().unwrap_or(0) + 1);
+                let n = rep.extra.get("skipped_oversize").and_then(|v| v.as_u64()).unwrap_or(0);
+                rep.extra.insert("skipped_oversize".into(), json!(n + 1));
                 continue;
             }
             let script = script_of(&b);
